@@ -72,7 +72,66 @@ pub fn story_to_json_value(
     output.insert("inkVersion".to_owned(), json!(INK_VERSION_CURRENT));
     output.insert("root".to_owned(), root_value);
     output.insert("listDefs".to_owned(), Value::Object(list_defs));
-    Ok(Value::Object(output))
+    let output = Value::Object(output);
+
+    if json_nesting_depth(&output) > MAX_STORY_JSON_DEPTH {
+        return Err(story_nested_too_deep());
+    }
+
+    Ok(output)
+}
+
+/// Deepest nesting of arrays and objects in the JSON of a story that the runtime
+/// loads: both its loaders stop at 127 levels (the recursion limit of serde_json,
+/// and `MAX_DEPTH` of the streaming tokenizer). Containers nest as the source
+/// nests, so this is the one place where a story that is nested too deeply to be
+/// loaded is rejected, whatever it is that nests (the parser stops earlier, at
+/// `MAX_NESTING_DEPTH` levels of source, where it can name the line).
+const MAX_STORY_JSON_DEPTH: usize = 127;
+
+fn story_nested_too_deep() -> CompilerError {
+    CompilerError::invalid_source(format!(
+        "nesting too deep: the compiled story would nest its content more than \
+         {MAX_STORY_JSON_DEPTH} levels deep and could not be loaded"
+    ))
+}
+
+/// A container is nested at least as deep as its path is long, and the containers
+/// of choices and gathers (`c-0`, `g-0`) are named content, an object and an array
+/// deeper than their parent: content whose path alone exceeds the limit is not even
+/// emitted (nor searched for labels), which also bounds the depth to which the
+/// emitter follows a long weave.
+fn path_exceeds_story_depth(path: &str) -> bool {
+    let levels: usize = path
+        .split('.')
+        .map(|component| {
+            if component.starts_with("c-") || component.starts_with("g-") {
+                2
+            } else {
+                1
+            }
+        })
+        .sum();
+    levels > MAX_STORY_JSON_DEPTH
+}
+
+fn json_nesting_depth(root: &Value) -> usize {
+    let mut deepest = 0;
+    let mut pending = vec![(root, 1usize)];
+    while let Some((value, depth)) = pending.pop() {
+        match value {
+            Value::Array(values) => {
+                deepest = deepest.max(depth);
+                pending.extend(values.iter().map(|child| (child, depth + 1)));
+            }
+            Value::Object(map) => {
+                deepest = deepest.max(depth);
+                pending.extend(map.values().map(|child| (child, depth + 1)));
+            }
+            _ => {}
+        }
+    }
+    deepest
 }
 
 #[derive(Debug, Default)]
